@@ -7,10 +7,10 @@ import vf
 import lanes
 
 ITYPES = [("i8", 1), ("u8", 1), ("i16", 2), ("u16", 2), ("i32", 4), ("u32", 4), ("i64", 8), ("u64", 8)]
-BIN = ["and", "or", "xor", "andnot", "op&", "op|", "op^"]
+BIN = ["and", "or", "xor", "andnot", "op&", "op|", "op^", "op&=", "op|=", "op^="]
 UN = ["not", "op~"]
-SH = ["shl", "shr", "rotl", "rotr", "op<<", "op>>"]
-SHV = ["shlv", "shrv", "rotlv", "rotrv", "op<<v", "op>>v"]
+SH = ["shl", "shr", "rotl", "rotr", "op<<", "op>>", "op<<=", "op>>="]
+SHV = ["shlv", "shrv", "rotlv", "rotrv", "op<<v", "op>>v", "op<<=v", "op>>=v"]
 
 
 def values(ctx, bits):
